@@ -40,6 +40,10 @@ var (
 // poolOverride, when set, replaces the pool (used by the zoned-address pass).
 var poolOverride []string
 
+// dupSets adds, for every identifier, the list that names it twice (both the
+// configuration file and the API accept such a list).
+var dupSets bool
+
 func pool(quick bool) []string {
 	if poolOverride != nil {
 		return poolOverride
@@ -68,6 +72,11 @@ func alphabet(quick bool) []op {
 	for i := range ids {
 		for j := i + 1; j < len(ids); j++ {
 			sets = append(sets, []string{ids[i], ids[j]})
+		}
+	}
+	if dupSets {
+		for _, id := range ids {
+			sets = append(sets, []string{id, id})
 		}
 	}
 	var ops []op
@@ -110,7 +119,21 @@ type refClient struct {
 	Name string
 	IDs  []string // canonical identifier strings
 	Own  int
+	// SS names the safe-search filter object handed over with the operation
+	// that stored the client's current settings.
+	SS string
 }
+
+// markSS is a client's own safe-search filter (the caller of Add/Update builds
+// it from the client's safe-search settings); the tag tells the objects apart.
+type markSS struct{ tag string }
+
+func (*markSS) CheckHost(context.Context, string, uint16) (filtering.Result, error) {
+	return filtering.Result{}, nil
+}
+func (*markSS) Update(context.Context, filtering.SafeSearchConfig) error { return nil }
+
+func ssTag(uidN int) string { return fmt.Sprintf("safe-search filter of operation %d", uidN%1000) }
 
 type model struct {
 	clients []refClient
@@ -167,7 +190,7 @@ func (m *model) apply(o op) bool {
 				return false
 			}
 		}
-		m.clients = append(m.clients, refClient{o.Name, o.IDs, o.Own})
+		m.clients = append(m.clients, refClient{Name: o.Name, IDs: o.IDs, Own: o.Own})
 		return true
 	case "update":
 		i := m.byName(o.Target)
@@ -183,7 +206,7 @@ func (m *model) apply(o op) bool {
 				return false
 			}
 		}
-		m.clients[i] = refClient{o.Name, o.IDs, o.Own}
+		m.clients[i] = refClient{Name: o.Name, IDs: o.IDs, Own: o.Own}
 		return true
 	case "remove":
 		i := m.byName(o.Target)
@@ -284,6 +307,8 @@ func mkPersistent(o op, uidN int) *client.Persistent {
 		p.SafeBrowsingEnabled = true
 		p.ParentalEnabled = true
 		p.SafeSearchConf.Enabled = true
+		p.SafeSearchConf.Google = uidN%2 == 0
+		p.SafeSearch = &markSS{tag: ssTag(uidN)}
 		p.Upstreams = []string{"1.1.1.1"}
 	}
 	if o.Own&2 != 0 {
@@ -346,12 +371,15 @@ func exec(hist []op) lib.Step {
 			ownersBefore = ownerMap(m)
 		}
 		want := m.apply(o)
+		if want && (o.Kind == "add" || o.Kind == "update") && o.Own&1 != 0 {
+			m.clients[m.byName(o.Name)].SS = ssTag(i + 1)
+		}
 		var got bool
 		switch o.Kind {
 		case "add":
 			got = s.Add(ctx, mkPersistent(o, i+1)) == nil
 		case "update":
-			got = s.Update(ctx, o.Target, mkPersistent(o, 1000+i)) == nil
+			got = s.Update(ctx, o.Target, mkPersistent(o, 1000+i+1)) == nil
 		case "remove":
 			got = s.RemoveByName(ctx, o.Target)
 		case "flip":
@@ -467,6 +495,13 @@ func exec(hist []op) lib.Step {
 				if setts.BlockedServices != nil {
 					gotBS = setts.BlockedServices.IDs
 				}
+				gotSS := ""
+				if ms, ok := setts.ClientSafeSearch.(*markSS); ok && ms != nil {
+					gotSS = ms.tag
+				}
+				if gotSS != rc.SS {
+					return fail("settings:safe-search-filter-of-earlier-settings", "client %q (own flags=%d): the request is given %q, the client's current settings were stored with %q", rc.Name, rc.Own, gotSS, rc.SS)
+				}
 				if setts.FilteringEnabled != wantFE || setts.SafeBrowsingEnabled != wantSB || setts.ParentalEnabled != wantPar || setts.SafeSearchEnabled != wantSS || strings.Join(gotBS, ",") != strings.Join(wantBS, ",") {
 					return fail("settings", "client %q (own flags=%d): got filtering=%v sb=%v parental=%v safesearch=%v services=%v", rc.Name, rc.Own, setts.FilteringEnabled, setts.SafeBrowsingEnabled, setts.ParentalEnabled, setts.SafeSearchEnabled, gotBS)
 				}
@@ -549,8 +584,20 @@ func zonedPass(c *lib.Ctx) {
 	b.Run()
 }
 
+// dupPass: identifier lists that name one identifier twice.
+func dupPass(c *lib.Ctx) {
+	poolOverride = []string{"10.0.0.0/16", "10.0.1.0/24", "10.0.0.1", "cid1"}
+	dupSets = true
+	defer func() { poolOverride, dupSets = nil, false }()
+	ops := alphabet(true)
+	c.Note("alphabet_duplicate_pass", fmt.Sprintf("%d operations over identifier pool %v, lists of one, two different and the same identifier twice, depth 3", len(ops), poolOverride))
+	b := &lib.BFS[op]{C: c, Ops: ops, Exec: exec, MaxDepth: 3, Workers: 16, Confirm: true}
+	b.Run()
+}
+
 func run(c *lib.Ctx) {
 	zonedPass(c)
+	dupPass(c)
 	if c.Quick() {
 		ops := alphabet(true)
 		c.Note("alphabet", fmt.Sprintf("%d operations over identifier pool %v", len(ops), pool(true)))
